@@ -4,6 +4,7 @@ package main
 import (
 	"encoding/json"
 	"os"
+	"sort"
 	"unicode"
 )
 
@@ -23,11 +24,50 @@ func ranges(f func(rune) bool) [][2]int {
 	return out
 }
 
+// mapping dumps a rune function as runs [lo, hi, stride, delta]: f(r) = r + delta for r = lo, lo+stride, ... <= hi;
+// runes not covered map to themselves
+func mapping(f func(rune) rune) [][4]int {
+	var out [][4]int
+	type pt struct{ r, d int }
+	var pts []pt
+	for r := rune(0); r <= unicode.MaxRune; r++ {
+		if g := f(r); g != r {
+			pts = append(pts, pt{int(r), int(g) - int(r)})
+		}
+	}
+	byDelta := map[int][]int{}
+	var deltas []int
+	for _, p := range pts {
+		if _, ok := byDelta[p.d]; !ok {
+			deltas = append(deltas, p.d)
+		}
+		byDelta[p.d] = append(byDelta[p.d], p.r)
+	}
+	sort.Ints(deltas)
+	for _, d := range deltas {
+		rs := byDelta[d]
+		for i := 0; i < len(rs); {
+			j := i + 1
+			stride := 1
+			if j < len(rs) && (rs[j]-rs[i] == 1 || rs[j]-rs[i] == 2) {
+				stride = rs[j] - rs[i]
+				for j < len(rs) && rs[j]-rs[j-1] == stride {
+					j++
+				}
+			}
+			out = append(out, [4]int{rs[i], rs[j-1], stride, d})
+			i = j
+		}
+	}
+	return out
+}
+
 func main() {
-	m := map[string][][2]int{
+	m := map[string]interface{}{
 		"IsLetter": ranges(unicode.IsLetter), "IsDigit": ranges(unicode.IsDigit), "IsSpace": ranges(unicode.IsSpace),
 		"IsUpper": ranges(unicode.IsUpper), "IsLower": ranges(unicode.IsLower), "IsPunct": ranges(unicode.IsPunct),
 		"IsControl": ranges(unicode.IsControl), "IsNumber": ranges(unicode.IsNumber), "IsPrint": ranges(unicode.IsPrint),
+		"map_SimpleFold": mapping(unicode.SimpleFold), "map_ToLower": mapping(unicode.ToLower), "map_ToUpper": mapping(unicode.ToUpper),
 	}
 	b, _ := json.Marshal(m)
 	os.WriteFile(os.Args[1], b, 0644)
